@@ -30,9 +30,13 @@ def _vec(s):
     return re.findall(r'"([^"]*)"', s)
 
 
+def _strip_comments(src):
+    return re.sub(r"//[^\n]*", "", src)
+
+
 def _attr_params(expr, helpers):
     """AttrParams expression -> (enum, variant, struct, field)"""
-    expr = expr.strip()
+    expr = _strip_comments(expr).strip()
     m = re.match(r"AttrParams::new\(\s*vec!\[(.*?)\]\s*\)", expr, re.S)
     if m:
         v = _vec(m.group(1))
